@@ -299,8 +299,8 @@ STRURL = ['"a"', "'a'", '"a\\\nb"', '"a\\"b"', "'it\\'s'", '"\\61 b"', '""', 'ur
           'url("data:image/svg+xml;charset=utf8,%3Csvg xmlns=%27http://www.w3.org/2000/svg%27%3E%3C/svg%3E")',
           'url("data:image/png;base64,iVBORw0KGgo=")', 'url()', 'url("")', "local('Foo Bar')", 'local("Foo")', 'format("woff")', ',']
 SEL_Q = [('a', 'type'), ('DIV', 'type'), ('*', 'type'), ('.Cls', 'sub'), ('#Id', 'sub'), (' > ', 'comb'), ('+', 'comb'), (' ~ ', 'comb'), (' ', 'comb'), (' , ', 'comb'),
-         ('[type="radio"]', 'sub'), (':hover', 'sub'), ('::before', 'sub'), (':not(.x)', 'sub'), (':nth-child(2n + 1)', 'sub')]
-SEL_T = SEL_Q + [('[b=c s]', 'sub'), ('[b="c d" s]', 'sub'), (':HOVER', 'sub'), ('::First-Line', 'sub'), (':nth-child(2N+1 of .Cls)', 'sub'), ('[lang|=EN]', 'sub'), ('[href$=".PDF" s]', 'sub'), ('[a^=\'x\']', 'sub'),
+         ('[type="radio"]', 'sub'), ('[b="c" s]', 'sub'), (':hover', 'sub'), ('::before', 'sub'), (':not(.x)', 'sub'), (':nth-child(2n + 1)', 'sub')]
+SEL_T = SEL_Q + [('[b=c s]', 'sub'), ('[b="c d" s]', 'sub'), ('[b="c" s]', 'sub'), ('[b="c" S]', 'sub'), (':HOVER', 'sub'), ('::First-Line', 'sub'), (':nth-child(2N+1 of .Cls)', 'sub'), ('[lang|=EN]', 'sub'), ('[href$=".PDF" s]', 'sub'), ('[a^=\'x\']', 'sub'),
                  ('[data-a=""]', 'sub'), (':is( a , B )', 'sub'), (':where(.X>.Y)', 'sub'), (':has(> IMG)', 'sub'), (':nth-last-child( EVEN )', 'sub'), ('#Id-2', 'sub'), ('.a\\:b', 'sub'),
                  ("[a='b c' i]", 'sub'), ('[ title ~= "x" ]', 'sub'), (':NOT( P , .y )', 'sub'), (':nth-of-type( -n + 3 )', 'sub'), ('[data-x="1a"]', 'sub'),
                  (':lang(EN)', 'sub'), ('[type=a i]', 'sub'), (':nth-child(odd)', 'sub'), ('svg|a', 'type')]
@@ -520,14 +520,12 @@ AT_DECL = [
 
 
 def import_cases():
-    """@import with every spelling of the target; the constructs of known findings 13 (one-character
-    unquoted url) and 14 (white space before a quoted url) are left out and pinned in known/C04.ndjson"""
+    """@import with every spelling of the target (incl. one-character urls and white space before a quoted url:
+    fixed findings 13 and 14)"""
     out = []
     for t in ('x', 'ab', 'a.css', 'a/b.css?v=1', 'A.CSS'):
-        forms = ['url(%s)', 'url( %s )', 'url("%s")', "url('%s')", 'URL(%s)', '"%s"', "'%s'", 'url(%s )', 'url(\n%s\n)']
+        forms = ['url(%s)', 'url( %s )', 'url("%s")', "url('%s')", 'URL(%s)', '"%s"', "'%s'", 'url(%s )', 'url(\n%s\n)', "url( '%s' )", 'url(\n"%s" )']
         for f in forms:
-            if len(t) == 1 and f in ('url(%s)', 'url( %s )', 'URL(%s)', 'url(%s )', 'url(\n%s\n)'):
-                continue
             for tail in ('', ' screen', ' screen and (min-width : 0px)', ' supports(display:grid)'):
                 out.append('@import ' + (f % t) + tail + ';')
     return out
